@@ -1,3 +1,364 @@
+import Bch.Proofs.HDKey
+/-!
+# C04 — HD key derivation conforms to BIP32 on every seed and path
+
+`Bch.Model.HDKey` is the byte-level model of `hdkeychain/extendedkey.go`, `Bch.Spec.BIP32` an
+independent transcription of the BIP32 text over numbers and points. Both are parameterised by the
+same pack `X : HDExt Pt` of external primitives. Everything assumed about `X` is the structure
+`GroupLaws X` (plus, only for `hd_wf_parse`, `ParseCanonical X`); `Toy.X` (ℤ/7) satisfies both.
+
+Vocabulary (all defined in `Bch/Proofs/HDKey.lean`):
+* `WF X k` — 32-byte private / 33-byte canonical public key, 32-byte chain code, 4-byte fingerprint
+  and version, depth ≤ 255;  `Reduced X k` — private scalar `< n`.
+* `abs X k : Option (SKey Pt)` — the BIP32-level key a byte-level key denotes.
+* `specI X s i`, `specIL X s i` — the `I` and `parse256(I_L)` of CKDpriv/CKDpub for parent `s`;
+  `childI X k i`, `childIL X k i` — the same quantities computed the way the Go code does.
+* `NonDegenerate X s i` — the child scalar is not 0 (private) / the child point is not ∞ (public).
+-/
 namespace Bch.Props.C04
-theorem placeholder : True := trivial
+open Bch Bch.Model Bch.Model.HDKey Bch.Spec.BIP32 Bch.Proofs.HDKey Bytes
+
+variable {Pt : Type} {X : HDExt Pt}
+
+/-! ### the external laws are satisfiable -/
+example : GroupLaws Toy.X := Toy.laws
+example : ParseCanonical Toy.X := Toy.parseCanonical
+
+/-! ### left padding of `big.Int.Bytes()` (the historic short-scalar bug class) -/
+
+/-- The padding `Child` applies to `ilNum.Bytes()` yields the 32-byte big-endian encoding, for every
+scalar below 2^256 — whatever the number (0..32) of leading zero bytes. -/
+theorem pad32_natToBytes (k : Nat) (h : k < 2 ^ 256) :
+    List.replicate (32 - (ofNatMin k).length) 0 ++ ofNatMin k = ofNatBE 32 k :=
+  pad_ofNatMin 32 k (by rw [pow256_32]; exact h)
+
+/-- … and it is exactly 32 bytes long. -/
+theorem pad32_length (k : Nat) (h : k < 2 ^ 256) :
+    (List.replicate (32 - (ofNatMin k).length) 0 ++ ofNatMin k).length = 32 := by
+  rw [pad32_natToBytes k h]; exact length_ofNatBE 32 k
+
+/-- `ser256` then `parse256` is the identity below 2^256. -/
+theorem pad32_toNatBE_ofNatBE (k : Nat) (h : k < 2 ^ 256) : toNatBE (ofNatBE 32 k) = k :=
+  toNatBE_ofNatBE 32 k (by rw [pow256_32]; exact h)
+
+/-- `parse256` then `ser256` is the identity on 32-byte strings. -/
+theorem pad32_ofNatBE_toNatBE (b : Bytes) (h : b.length = 32) : ofNatBE 32 (toNatBE b) = b :=
+  ofNatBE_toNatBE' 32 b h
+
+/-- 32 bytes denote a number below 2^256. -/
+theorem pad32_toNatBE_lt (b : Bytes) (h : b.length = 32) : toNatBE b < 2 ^ 256 := by
+  have := toNatBE_lt b; rw [h, pow256_32] at this; exact this
+
+/-- Every number `j = 0..32` of leading zero bytes really occurs below 2^256: a scalar in
+`[256^m, 256^(m+1))` has an `(m+1)`-byte minimal encoding, i.e. `31 - m` bytes of padding … -/
+theorem pad32_leading_zero_bytes (m k : Nat) (h1 : 256 ^ m ≤ k) (h2 : k < 256 ^ (m + 1)) :
+    (ofNatMin k).length = m + 1 :=
+  length_ofNatMin_eq m k h1 h2
+
+/-- … and 0 needs all 32. -/
+theorem pad32_zero : List.replicate (32 - (ofNatMin 0).length) 0 ++ ofNatMin 0 = List.replicate 32 0 := by
+  rw [pad32_natToBytes 0 (by decide), ofNatBE_zero]
+
+-- non-vacuity: for each m < 32 there is a scalar < 2^256 with exactly 31 - m leading zero bytes
+example (m : Nat) (hm : m < 32) : ∃ k, k < 2 ^ 256 ∧ (ofNatMin k).length = m + 1 := by
+  refine ⟨256 ^ m, ?_, pad32_leading_zero_bytes m _ (Nat.le_refl _) (Nat.pow_lt_pow_right (by decide) (by omega))⟩
+  rw [← pow256_32]; exact Nat.pow_lt_pow_right (by decide) hm
+example : List.replicate (32 - (ofNatMin 1).length) 0 ++ ofNatMin 1 = List.replicate 31 0 ++ [1] := by
+  rw [pad32_natToBytes 1 (by decide)]; decide +kernel
+
+/-! ### `hd_wf`: the invariant -/
+
+/-- `NewMaster` produces well-formed private keys with scalar in `[1, n-1]` and depth 0. -/
+theorem hd_wf_master (L : GroupLaws X) {seed hdPriv : Bytes} (hv : hdPriv.length = 4) {k : XKey}
+    (h : NewMaster X seed hdPriv = .ok k) :
+    WF X k ∧ Reduced X k ∧ toNatBE k.key ≠ 0 ∧ k.isPrivate = true ∧ k.depth = 0 :=
+  wf_newMaster L hv h
+
+example : ∃ k, Toy.xprv.length = 4 ∧ NewMaster Toy.X Toy.seed Toy.xprv = .ok k :=
+  Toy.master_seed.elim fun k h => ⟨k, rfl, h⟩
+
+/-- Whatever a successful `Child` returns has a 32-byte chain code, 4-byte fingerprint, the parent's
+version and flag, depth + 1 ≤ 255 and child number `i`. -/
+theorem hd_wf_child_fields (L : GroupLaws X) {k : XKey} (hwf : WF X k) {i : Nat} {k' : XKey}
+    (h : Child X k i = .ok k') :
+    k'.chainCode.length = 32 ∧ k'.parentFP.length = 4 ∧ k'.version = k.version ∧
+      k'.depth = k.depth + 1 ∧ k'.depth ≤ 255 ∧ k'.childNum = i ∧ k'.isPrivate = k.isPrivate ∧
+      k'.chainCode = (childI X k i).drop 32 ∧ k'.parentFP = (X.hash160 (pubKeyBytes X k)).take 4 :=
+  child_lens L hwf h
+
+/-- Private `Child` preserves `WF`; the child key is the 32-byte encoding of `(IL + k) mod n`
+(so it is reduced). This is where `pad32_natToBytes` is used. -/
+theorem hd_wf_child_priv (L : GroupLaws X) {k : XKey} (hwf : WF X k) (hp : k.isPrivate = true) {i : Nat}
+    {k' : XKey} (h : Child X k i = .ok k') :
+    WF X k' ∧ Reduced X k' ∧ k'.isPrivate = true ∧
+      k'.key = ofNatBE 32 ((childIL X k i + toNatBE k.key) % X.n) :=
+  wf_child_priv L hwf hp h
+
+example : ∃ k', WF Toy.X Toy.kPriv ∧ Toy.kPriv.isPrivate = true ∧ Child Toy.X Toy.kPriv (2 ^ 31) = .ok k' :=
+  Toy.child_kPriv_hard.elim fun c h => ⟨c, Toy.wf_kPriv, rfl, h⟩
+
+/-- Public `Child` preserves `WF` provided the child point `IL·G + K` is not the point at infinity
+(the Go code does not test this; if it is ∞ the child key is `serInf`, which need not parse). -/
+theorem hd_wf_child_pub (L : GroupLaws X) {k : XKey} (hwf : WF X k) (hp : k.isPrivate = false) {i : Nat}
+    {k' : XKey} (h : Child X k i = .ok k') {Q : Pt}
+    (hnd : addO X (X.mulG (childIL X k i)) (X.parse k.key) = some Q) :
+    WF X k' ∧ k'.isPrivate = false ∧ k'.key = X.serC Q :=
+  wf_child_pub L hwf hp h hnd
+
+example : ∃ k' Q, WF Toy.X Toy.kPub ∧ Toy.kPub.isPrivate = false ∧ Child Toy.X Toy.kPub 0 = .ok k' ∧
+    addO Toy.X (Toy.X.mulG (childIL Toy.X Toy.kPub 0)) (Toy.X.parse Toy.kPub.key) = some Q :=
+  Toy.child_kPub_0.elim fun c h => ⟨c, 1, Toy.wf_kPub, rfl, h, by rw [Toy.IL_kPub_0]; decide +kernel⟩
+
+/-- `Neuter` preserves `WF` provided the private scalar is not ≡ 0 mod n (otherwise the public key is
+the stand-in for ∞). It copies chain code, depth, fingerprint, child number. -/
+theorem hd_wf_neuter (L : GroupLaws X) {k : XKey} (hwf : WF X k)
+    (hnz : k.isPrivate = true → toNatBE k.key % X.n ≠ 0) {k' : XKey} (h : Neuter X k = .ok k') :
+    WF X k' ∧ k'.isPrivate = false ∧ k'.key = pubKeyBytes X k ∧ k'.chainCode = k.chainCode ∧
+      k'.depth = k.depth ∧ k'.parentFP = k.parentFP ∧ k'.childNum = k.childNum :=
+  wf_neuter L hwf hnz h
+
+example : ∃ nk, WF Toy.X Toy.kPriv ∧ (Toy.kPriv.isPrivate = true → toNatBE Toy.kPriv.key % Toy.X.n ≠ 0) ∧
+    Neuter Toy.X Toy.kPriv = .ok nk :=
+  Toy.neuter_kPriv.elim fun nk h => ⟨nk, Toy.wf_kPriv, fun _ => by rw [Toy.key_kPriv]; decide, h⟩
+
+/-- (Non-vacuity: accepted strings of the toy instance are exhibited in `Bch/Props/C05.lean`.)
+Keys accepted by `NewKeyFromString` are well-formed, reduced and non-zero. The public case needs
+`ParseCanonical` (`ParsePubKey` accepts only the canonical compressed encoding of its result);
+no other theorem of C04/C05 uses that extra law. -/
+theorem hd_wf_parse (hc : ParseCanonical X) {s : Bytes} {k : XKey} (h : NewKeyFromString X s = .ok k) :
+    WF X k ∧ Reduced X k ∧ (k.isPrivate = true → toNatBE k.key ≠ 0) ∧ k.childNum < 2 ^ 32 :=
+  wf_newKeyFromString hc h
+
+/-! ### master key -/
+
+/-- `NewMaster` computes BIP32's master key. -/
+theorem C04_master (L : GroupLaws X) {seed v : Bytes} {k : XKey} (h : NewMaster X seed v = .ok k) :
+    ∃ s, master X seed = some s ∧ abs X k = some s :=
+  master_refines L h
+
+/-- … and fails exactly when BIP32 declares the seed invalid. -/
+theorem C04_master_none (L : GroupLaws X) (seed v : Bytes) :
+    master X seed = none ↔ ∃ e, NewMaster X seed v = .error e :=
+  master_none_iff L seed v
+
+example : NewMaster Toy.X Toy.badSeed Toy.xprv = .error .unusableSeed := Toy.master_badSeed
+
+/-! ### refinement of `Child` -/
+
+/-- **Private derivation refines CKDpriv.** For a well-formed private key `k` denoting `s`: if
+`Child` succeeds, so does the specification, the child denotes the specified child, and scalar,
+depth, child number, fingerprint and chain code are the specified ones.
+
+Hypothesis `hnd`: BIP32 declares the child invalid when `(IL + k) mod n = 0`; the Go code does not
+test that, so the theorem carries `(IL + k) mod n ≠ 0`. -/
+theorem C04_refines_priv (L : GroupLaws X) {k : XKey} (hwf : WF X k) (hp : k.isPrivate = true)
+    {s : SKey Pt} (habs : abs X k = some s) {i : Nat} {k' : XKey} (hc : Child X k i = .ok k')
+    (hnd : (specIL X s i + toNatBE k.key) % X.n ≠ 0) :
+    ∃ s', child X s i = some s' ∧ abs X k' = some s' ∧ WF X k' ∧
+      s'.priv = some ((specIL X s i + toNatBE k.key) % X.n) ∧ s'.depth = s.depth + 1 ∧ s'.idx = i ∧
+      s'.fp = fingerprint X s.pub ∧ s'.c = (specI X s i).drop 32 := by
+  obtain ⟨K, _, hs⟩ := abs_priv hp habs
+  exact refines_priv L hwf hp habs hc ((nondeg_priv (by rw [hs]) i).2 hnd)
+
+example : ∃ k', WF Toy.X Toy.kPriv ∧ abs Toy.X Toy.kPriv = some Toy.sPriv ∧
+    Child Toy.X Toy.kPriv (2 ^ 31) = .ok k' ∧
+    (specIL Toy.X Toy.sPriv (2 ^ 31) + toNatBE Toy.kPriv.key) % Toy.X.n ≠ 0 :=
+  Toy.child_kPriv_hard.elim fun c h =>
+    ⟨c, Toy.wf_kPriv, Toy.abs_kPriv, h, by rw [Toy.specIL_sPriv_hard, Toy.key_kPriv]; decide⟩
+
+/-- **Public derivation refines CKDpub.** Hypothesis `hnd`: the child point `IL·G + K` is not ∞
+(declared invalid by BIP32, not tested by the Go code). -/
+theorem C04_refines_pub (L : GroupLaws X) {k : XKey} (hwf : WF X k) (hp : k.isPrivate = false)
+    {s : SKey Pt} (habs : abs X k = some s) {i : Nat} {k' : XKey} (hc : Child X k i = .ok k')
+    (hnd : addO X (X.mulG (specIL X s i)) (some s.pub) ≠ none) :
+    ∃ s', child X s i = some s' ∧ abs X k' = some s' ∧ WF X k' ∧
+      s'.priv = none ∧ addO X (X.mulG (specIL X s i)) (some s.pub) = some s'.pub ∧
+      s'.depth = s.depth + 1 ∧ s'.idx = i ∧
+      s'.fp = fingerprint X s.pub ∧ s'.c = (specI X s i).drop 32 := by
+  obtain ⟨K, _, hs⟩ := abs_pub hp habs
+  exact refines_pub L hwf hp habs hc ((nondeg_pub (by rw [hs]) i).2 hnd)
+
+example : ∃ k', WF Toy.X Toy.kPub ∧ abs Toy.X Toy.kPub = some Toy.sPub ∧ Child Toy.X Toy.kPub 0 = .ok k' ∧
+    addO Toy.X (Toy.X.mulG (specIL Toy.X Toy.sPub 0)) (some Toy.sPub.pub) ≠ none :=
+  Toy.child_kPub_0.elim fun c h =>
+    ⟨c, Toy.wf_kPub, Toy.abs_kPub, h, (nondeg_pub rfl 0).1 Toy.nondeg_sPub_0⟩
+
+/-- **Converse (private).** Whenever CKDpriv yields a child and `IL ≠ 0`, `Child` succeeds (unless the
+depth guard fires) and returns the key denoting that child. `IL = 0` is excluded because the Go code
+refuses it (see `C04_spec_none_priv`). -/
+theorem C04_refines_priv_complete (L : GroupLaws X) {k : XKey} (hwf : WF X k) (hp : k.isPrivate = true)
+    {s : SKey Pt} (habs : abs X k = some s) {i : Nat} (hd : k.depth ≠ 255) {s' : SKey Pt}
+    (hs' : child X s i = some s') (h0 : specIL X s i ≠ 0) :
+    ∃ k', Child X k i = .ok k' ∧ abs X k' = some s' ∧ WF X k' :=
+  refines_priv_complete L hwf hp habs hd hs' h0
+
+/-- **Converse (public).** Whenever CKDpub (as transcribed) yields a child, so does `Child`. -/
+theorem C04_refines_pub_complete (L : GroupLaws X) {k : XKey} (hwf : WF X k) (hp : k.isPrivate = false)
+    {s : SKey Pt} (habs : abs X k = some s) {i : Nat} (hd : k.depth ≠ 255) {s' : SKey Pt}
+    (hs' : child X s i = some s') :
+    ∃ k', Child X k i = .ok k' ∧ abs X k' = some s' ∧ WF X k' :=
+  refines_pub_complete L hwf hp habs hd hs'
+
+example : ∃ s', WF Toy.X Toy.kPriv ∧ abs Toy.X Toy.kPriv = some Toy.sPriv ∧ Toy.kPriv.depth ≠ 255 ∧
+    child Toy.X Toy.sPriv 0 = some s' ∧ specIL Toy.X Toy.sPriv 0 ≠ 0 :=
+  Toy.child_kPriv_0.elim fun _ h =>
+    (refines_priv Toy.laws Toy.wf_kPriv rfl Toy.abs_kPriv h Toy.nondeg_sPriv_0).elim fun s' hs' =>
+      ⟨s', Toy.wf_kPriv, Toy.abs_kPriv, by decide, hs'.1, by rw [Toy.specIL_sPriv_0]; decide⟩
+example : ∃ s', WF Toy.X Toy.kPub ∧ abs Toy.X Toy.kPub = some Toy.sPub ∧ Toy.kPub.depth ≠ 255 ∧
+    child Toy.X Toy.sPub 0 = some s' :=
+  Toy.child_kPub_0.elim fun _ h =>
+    (refines_pub Toy.laws Toy.wf_kPub rfl Toy.abs_kPub h Toy.nondeg_sPub_0).elim fun s' hs' =>
+      ⟨s', Toy.wf_kPub, Toy.abs_kPub, by decide, hs'.1⟩
+
+/-- The byte strings fed to / returned by HMAC in the Go code (`copy(data[1:], key)` resp.
+`pubKeyBytes`, then `PutUint32`) are the `I` of the specification. -/
+theorem C04_hmac_data (L : GroupLaws X) {k : XKey} (hwf : WF X k) {s : SKey Pt} (habs : abs X k = some s)
+    (i : Nat) (hi : k.isPrivate = true ∨ i < 2 ^ 31) :
+    childI X k i = specI X s i ∧ childIL X k i = specIL X s i :=
+  ⟨childI_eq_specI L hwf habs i hi, childIL_eq_specIL L hwf habs i hi⟩
+
+/-- The fields `abs` transports unchanged. -/
+theorem C04_abs_fields {k : XKey} {s : SKey Pt} (h : abs X k = some s) :
+    s.c = k.chainCode ∧ s.depth = k.depth ∧ s.fp = k.parentFP ∧ s.idx = k.childNum ∧
+      s.priv.isSome = k.isPrivate :=
+  abs_fields h
+
+/-- **All errors of private `Child`.** `ErrInvalidChild` exactly when `parse256(IL) ≥ n ∨ = 0`
+(after the depth guard). -/
+theorem C04_child_error_priv (L : GroupLaws X) {k : XKey} (hp : k.isPrivate = true) (i : Nat) (e : Err) :
+    Child X k i = .error e ↔
+      (k.depth = 255 ∧ e = .deriveBeyondMaxDepth) ∨
+      (k.depth ≠ 255 ∧ (childIL X k i ≥ X.n ∨ childIL X k i = 0) ∧ e = .invalidChild) :=
+  child_error_priv L hp i e
+
+/-- **All errors of public `Child`** (for a key that parses). Given the laws, `IL·G = ∞` happens
+only for `IL = 0`, so the Go test `ilx == 0 || ily == 0` never fires after the range check. -/
+theorem C04_child_error_pub (L : GroupLaws X) {k : XKey} (hp : k.isPrivate = false) {P : Pt}
+    (hP : X.parse k.key = some P) (i : Nat) (e : Err) :
+    Child X k i = .error e ↔
+      (k.depth = 255 ∧ e = .deriveBeyondMaxDepth) ∨
+      (k.depth ≠ 255 ∧ i ≥ 2 ^ 31 ∧ e = .deriveHardFromPublic) ∨
+      (k.depth ≠ 255 ∧ i < 2 ^ 31 ∧ (childIL X k i ≥ X.n ∨ childIL X k i = 0) ∧ e = .invalidChild) :=
+  child_error_pub L hp hP i e
+
+/-- When CKDpriv is invalid: `IL ≥ n` or child scalar 0. **Deviation, stated precisely**: the Go
+code (`C04_child_error_priv`) rejects `IL ≥ n ∨ IL = 0`; the specification rejects
+`IL ≥ n ∨ (IL + k) mod n = 0`. So Go additionally refuses `IL = 0` (where the spec's child has the
+parent's scalar), and Go accepts `(IL + k) mod n = 0` (child scalar 0) which the spec refuses. Both
+events need an HMAC preimage. -/
+theorem C04_spec_none_priv (L : GroupLaws X) (s : SKey Pt) {kk : Nat} (hs : s.priv = some kk) (i : Nat) :
+    child X s i = none ↔ specIL X s i ≥ X.n ∨ (specIL X s i + kk) % X.n = 0 :=
+  spec_child_none_priv L s hs i
+
+-- the three disagreement/agreement cases exhibited in the toy instance (private parent, scalar 3, n = 7):
+-- index 2 has IL = 7 = n: refused by both
+example : Child Toy.X Toy.kPriv 2 = .error .invalidChild := Toy.child_kPriv_2
+-- index 4 has IL = 0: refused by the Go code, a valid child for the specification
+example : Child Toy.X Toy.kPriv 4 = .error .invalidChild ∧ child Toy.X Toy.sPriv 4 ≠ none :=
+  ⟨Toy.child_kPriv_4, Toy.spec_child_sPriv_4⟩
+-- index 8 has IL = 4, (4 + 3) mod 7 = 0: the Go code returns a key with scalar 0, the specification
+-- declares the child invalid (so the hypothesis `hnd` of `C04_refines_priv` cannot be dropped)
+example : Child Toy.X Toy.kPriv 8 = .ok Toy.cZero ∧ toNatBE Toy.cZero.key = 0 ∧
+    child Toy.X Toy.sPriv 8 = none :=
+  ⟨Toy.child_kPriv_8, by decide +kernel, Toy.spec_child_sPriv_8⟩
+
+/-- When CKDpub (as transcribed in `Spec/BIP32.lean`) is invalid: hardened index, `IL ≥ n`,
+`IL·G = ∞` (i.e. `IL = 0`), or child point ∞. The Go code rejects the first three cases
+(`C04_child_error_pub`) but not the last. -/
+theorem C04_spec_none_pub (L : GroupLaws X) (s : SKey Pt) (hs : s.priv = none) (i : Nat) :
+    child X s i = none ↔
+      i ≥ 2 ^ 31 ∨ specIL X s i ≥ X.n ∨ specIL X s i = 0 ∨
+        addO X (X.mulG (specIL X s i)) (some s.pub) = none :=
+  spec_child_none_pub L s hs i
+
+/-- **Paths.** `derivePath` is iterated `Child` with Go's error propagation, `specPath` iterated
+CKD. If the Go derivation along `p` succeeds and no step is degenerate (`NonDegPath`: at every step
+the spec-level parent and index satisfy `NonDegenerate`), the spec derivation succeeds and the
+results correspond; the result is again well-formed. -/
+theorem C04_path (L : GroupLaws X) (p : List Nat) {k : XKey} (hwf : WF X k)
+    {s : SKey Pt} (habs : abs X k = some s) {k' : XKey} (hc : derivePath X k p = .ok k')
+    (hnd : NonDegPath X s p) :
+    ∃ s', specPath X s p = some s' ∧ abs X k' = some s' ∧ WF X k' :=
+  refines_path L p hwf habs hc hnd
+
+/-- From a seed: master key then path. -/
+theorem C04_seed_path (L : GroupLaws X) {seed v : Bytes} (hv : v.length = 4) (p : List Nat) {m k' : XKey}
+    (hm : NewMaster X seed v = .ok m) (hc : derivePath X m p = .ok k')
+    (hnd : ∀ s, master X seed = some s → NonDegPath X s p) :
+    ∃ s s', master X seed = some s ∧ specPath X s p = some s' ∧ abs X k' = some s' ∧ WF X k' := by
+  obtain ⟨s, hs, ha⟩ := master_refines L hm
+  obtain ⟨s', h1, h2, h3⟩ := refines_path L p (wf_newMaster L hv hm).1 ha hc (hnd s hs)
+  exact ⟨s, s', hs, h1, h2, h3⟩
+
+example : ∃ m, Toy.xprv.length = 4 ∧ NewMaster Toy.X Toy.seed Toy.xprv = .ok m ∧
+    derivePath Toy.X m [] = .ok m ∧ ∀ s, master Toy.X Toy.seed = some s → NonDegPath Toy.X s [] :=
+  Toy.master_seed.elim fun m h => ⟨m, rfl, h, rfl, fun _ _ => trivial⟩
+
+example : ∃ k', WF Toy.X Toy.kPriv ∧ abs Toy.X Toy.kPriv = some Toy.sPriv ∧
+    derivePath Toy.X Toy.kPriv [0] = .ok k' ∧ NonDegPath Toy.X Toy.sPriv [0] :=
+  Toy.child_kPriv_0.elim fun c h =>
+    ⟨c, Toy.wf_kPriv, Toy.abs_kPriv, by simp only [derivePath, h], Toy.nondeg_sPriv_0, fun _ _ => trivial⟩
+
+/-! ### serialisation -/
+
+/-- **`String` is BIP32's serialisation** of `abs k` (4 version ‖ 1 depth ‖ 4 fingerprint ‖
+4 child number ‖ 32 chain code ‖ 33 key, then 4 checksum bytes, Base58), the private key being
+`0x00 ‖ ser256(k)` thanks to `paddedAppend`. -/
+theorem C04_serialise {k : XKey} (hwf : WF X k) {s : SKey Pt} (habs : abs X k = some s)
+    (verPriv verPub : Bytes) (hv : k.version = if k.isPrivate then verPriv else verPub) :
+    HDKey.String X k = serialize X verPriv verPub s :=
+  serialise hwf habs verPriv verPub hv
+
+example : WF Toy.X Toy.kPriv ∧ abs Toy.X Toy.kPriv = some Toy.sPriv ∧
+    Toy.kPriv.version = if Toy.kPriv.isPrivate then Toy.xprv else Toy.xpub :=
+  ⟨Toy.wf_kPriv, Toy.abs_kPriv, rfl⟩
+
+/-- The encoded payload is 78 bytes (+ 4 checksum bytes) for every well-formed key. -/
+theorem C04_serialise_layout {k : XKey} (hwf : WF X k) :
+    HDKey.String X k = Base58.Encode (payload k ++ (X.sha256d (payload k)).take 4) ∧
+      (payload k).length = 78 :=
+  ⟨String_eq hwf, payload_len hwf⟩
+
+/-! ### neutering commutes with non-hardened derivation -/
+
+/-- **`Neuter (Child k i) = Child (Neuter k) i` for `i < 2^31`**: both succeed and return the same
+key (key bytes, chain code, depth, fingerprint, child number, version, flag). From the group laws:
+`((IL + k) mod n)·G = IL·G + k·G`. No non-degeneracy hypothesis is needed: if the child scalar is 0
+both sides carry `serInf`. Hypotheses: the parent scalar is not ≡ 0 mod n (its public key exists),
+and `Neuter k` succeeds (i.e. the version is a registered private HD version). -/
+theorem C04_neuter_commutes (L : GroupLaws X) {k : XKey} (hp : k.isPrivate = true)
+    (hnz : toNatBE k.key % X.n ≠ 0) {i : Nat} (hi : i < 2 ^ 31) {c : XKey} (hc : Child X k i = .ok c)
+    {nk : XKey} (hn : Neuter X k = .ok nk) :
+    ∃ nc, Neuter X c = .ok nc ∧ Child X nk i = .ok nc :=
+  neuter_commutes L hp hnz hi hc hn
+
+/-- … and the error cases commute as well: if private `Child` fails, public `Child` on the neutered
+parent fails with the same error. -/
+theorem C04_neuter_commutes_err (L : GroupLaws X) {k : XKey} (hp : k.isPrivate = true)
+    (hnz : toNatBE k.key % X.n ≠ 0) {i : Nat} (hi : i < 2 ^ 31) {e : Err} (hc : Child X k i = .error e)
+    {nk : XKey} (hn : Neuter X k = .ok nk) : Child X nk i = .error e :=
+  neuter_commutes_err L hp hnz hi hc hn
+
+example : ∃ nk, Toy.kPriv.isPrivate = true ∧ toNatBE Toy.kPriv.key % Toy.X.n ≠ 0 ∧ 2 < 2 ^ 31 ∧
+    Child Toy.X Toy.kPriv 2 = .error .invalidChild ∧ Neuter Toy.X Toy.kPriv = .ok nk :=
+  Toy.neuter_kPriv.elim fun nk h' =>
+    ⟨nk, rfl, by rw [Toy.key_kPriv]; decide, by decide, Toy.child_kPriv_2, h'⟩
+
+example : ∃ c nk, Toy.kPriv.isPrivate = true ∧ toNatBE Toy.kPriv.key % Toy.X.n ≠ 0 ∧ 0 < 2 ^ 31 ∧
+    Child Toy.X Toy.kPriv 0 = .ok c ∧ Neuter Toy.X Toy.kPriv = .ok nk :=
+  Toy.child_kPriv_0.elim fun c h => Toy.neuter_kPriv.elim fun nk h' =>
+    ⟨c, nk, rfl, by rw [Toy.key_kPriv]; decide, by decide, h, h'⟩
+
+/-! ### guards -/
+
+/-- Depth 255 ⇒ `ErrDeriveBeyondMaxDepth` (checked first, for every key and index); hardened from
+public ⇒ `ErrDeriveHardFromPublic`; seed length outside 16..64 ⇒ `ErrInvalidSeedLen`. -/
+theorem C04_guards :
+    (∀ (k : XKey) (i : Nat), k.depth = 255 → Child X k i = .error .deriveBeyondMaxDepth) ∧
+    (∀ (k : XKey) (i : Nat), k.depth ≠ 255 → k.isPrivate = false → i ≥ 2 ^ 31 →
+        Child X k i = .error .deriveHardFromPublic) ∧
+    (∀ (seed v : Bytes), seed.length < 16 ∨ seed.length > 64 →
+        NewMaster X seed v = .error .invalidSeedLen) :=
+  ⟨guard_depth, guard_hard, guard_seed⟩
+
 end Bch.Props.C04
